@@ -250,7 +250,7 @@ def run(ctx):
                 ctx.violation(key, detail + " | option seed %d hashseed %d pinned=%s" % it, {"seed": it[0], "key": key, "kind": "real", "hashseed": it[1], "pin": it[2]})
         ctx.cov["real_executions_observed"] = obs
     if len(refs) < 0.75 * len(seeds):
-        raise runner.HarnessError("only %d of %d canonical runs completed; reproducibility cannot be judged (see C19)" % (len(refs), len(seeds)))
+        ctx.cannot_judge("only %d of %d canonical runs completed; reproducibility cannot be judged (see C19)" % (len(refs), len(seeds)))
     ctx.cov["evaluations"] = n_exec
     ctx.cov["distinct_nontrivial"] = len(sig) if len(sig) >= 2 else len(refs)
     ctx.cov["option_sets"] = len(seeds)
